@@ -1,13 +1,13 @@
 // The harness-owned network: one decision per datagram, default "deliver after the base delay".
-// (copy of netmc's net.rs; the only addition is the virtual-clock synchronisation in `execute`
-// and in the delivery task, so that quiche's Instant::now() follows the executor's time)
+// Reduced copy of netmc's net.rs (same canonical ordering, same schedule syntax): only the three
+// deviations C07 uses — Drop, Dup, Delay — plus the virtual-clock synchronisation in `execute` and
+// in the delivery task, so that quiche's Instant::now() follows the executor's time.
 #![allow(dead_code)]
-use crate::record::{now_us, Dgram, Rec, CLIENT, SERVER};
+use crate::record::{now_ns, now_us, Dgram, Rec, CLIENT, SERVER};
 use s2n_quic::provider::io::testing::{
     network::{Buffers, Network, Packet},
     spawn,
     time::delay_until,
-    Socket,
 };
 use std::collections::BTreeMap;
 use std::net::SocketAddr;
@@ -22,21 +22,6 @@ pub enum Action {
     Dup(u64),
     /// deliver after `mult` x base delay (arrives after the next flight)
     Delay(u32),
-    /// xor one byte: 0 = first byte, 1 = middle, 2 = last; mask
-    Corrupt(u8, u8),
-    /// keep only the first half
-    Truncate,
-    /// drop this and every later datagram in direction: 0 = client->server, 1 = server->client, 2 = both
-    BlackholeFrom(u8),
-    /// same, but only for the given number of milliseconds
-    BlackholeFor(u8, u32),
-    /// deliver, then the client's socket rebinds to a new address
-    RebindClient,
-    /// hold the genuine datagram back by 20 ms; with forging enabled, deliver forged variants of it
-    /// (claiming the genuine source address) during those 20 ms: 0 = every single-byte mutation
-    /// (x ^01/^80/^ff), 1 = every truncation, 2 = 64 garbage datagrams of the same size,
-    /// 3 = splices with the previous datagram of the same direction at every 16th cut point
-    Forge(u8),
 }
 
 impl Action {
@@ -46,12 +31,6 @@ impl Action {
             Action::Drop => "D".into(),
             Action::Dup(us) => format!("U{}", us),
             Action::Delay(m) => format!("L{}", m),
-            Action::Corrupt(w, m) => format!("C{}:{}", w, m),
-            Action::Truncate => "T".into(),
-            Action::BlackholeFrom(d) => format!("B{}", d),
-            Action::BlackholeFor(d, ms) => format!("H{}:{}", d, ms),
-            Action::RebindClient => "R".into(),
-            Action::Forge(k) => format!("F{}", k),
         }
     }
     pub fn parse(s: &str) -> Option<Action> {
@@ -61,18 +40,6 @@ impl Action {
             "D" => Action::Drop,
             "U" => Action::Dup(t.parse().ok()?),
             "L" => Action::Delay(t.parse().ok()?),
-            "C" => {
-                let (a, b) = t.split_once(':')?;
-                Action::Corrupt(a.parse().ok()?, b.parse().ok()?)
-            }
-            "T" => Action::Truncate,
-            "B" => Action::BlackholeFrom(t.parse().ok()?),
-            "H" => {
-                let (a, b) = t.split_once(':')?;
-                Action::BlackholeFor(a.parse().ok()?, b.parse().ok()?)
-            }
-            "R" => Action::RebindClient,
-            "F" => Action::Forge(t.parse().ok()?),
             _ => return None,
         })
     }
@@ -97,35 +64,14 @@ pub fn parse_schedule(s: &str) -> Option<Schedule> {
     Some(out)
 }
 
-/// a datagram the harness injects itself (forgeries, strays): delivered to `dst` claiming `src`
-#[derive(Clone, Debug)]
-pub struct Inject {
-    /// inject immediately before the datagram with this index is handled
-    pub before_idx: u32,
-    pub to: u8,
-    pub payload: Vec<u8>,
-    /// pretend to come from the genuine peer (true) or from an unrelated address (false)
-    pub from_peer: bool,
-    /// source port of the unrelated address (replies are matched on it)
-    pub src_port: u16,
-}
-
 pub struct NetShared {
     pub schedule: BTreeMap<u32, Action>,
-    pub injects: Vec<Inject>,
     pub next_idx: u32,
     pub base_delay: Duration,
-    pub blackhole: [Option<u64>; 2], // per direction: until time (u64::MAX = forever)
     pub client_addr: Option<SocketAddr>,
     pub server_addr: Option<SocketAddr>,
-    pub client_socket: Option<Socket>,
-    pub rebinds: u32,
-    pub schedule_errors: Vec<String>,
+    /// largest UDP payload the network carries
     pub mtu: usize,
-    /// false = differential baseline: Forge actions only delay the genuine datagram
-    pub forge_enabled: bool,
-    pub last_payload: [Option<Vec<u8>>; 2],
-    pub forged: u64,
 }
 
 pub struct ChoiceNet {
@@ -134,23 +80,8 @@ pub struct ChoiceNet {
 }
 
 impl ChoiceNet {
-    pub fn new(schedule: &Schedule, injects: Vec<Inject>, base_delay: Duration, mtu: usize, rec: Rec) -> ChoiceNet {
-        let shared = NetShared {
-            schedule: schedule.iter().cloned().collect(),
-            injects,
-            next_idx: 0,
-            base_delay,
-            blackhole: [None, None],
-            client_addr: None,
-            server_addr: None,
-            client_socket: None,
-            rebinds: 0,
-            schedule_errors: Vec::new(),
-            mtu,
-            forge_enabled: true,
-            last_payload: [None, None],
-            forged: 0,
-        };
+    pub fn new(schedule: &Schedule, base_delay: Duration, mtu: usize, rec: Rec) -> ChoiceNet {
+        let shared = NetShared { schedule: schedule.iter().cloned().collect(), next_idx: 0, base_delay, client_addr: None, server_addr: None, mtu };
         ChoiceNet { shared: Arc::new(Mutex::new(shared)), rec }
     }
 }
@@ -165,7 +96,7 @@ fn deliver(buffers: &Buffers, mut packet: Packet, at_us: u64, now: u64, rec: &Re
             delay_until(when).await;
         }
         let t = now_us();
-        crate::clock::set_virtual_us(t);
+        crate::clock::set_virtual_ns(now_ns());
         buffers.rx(*packet.path.local_address, |queue| {
             queue.enqueue(packet);
         });
@@ -185,13 +116,14 @@ impl Network for ChoiceNet {
         if packets.is_empty() {
             return 0;
         }
-        // canonical order: by source address (the per-source order is already FIFO)
+        // canonical order: by source address (the per-source order is already FIFO); the drain
+        // iterates a HashMap in RandomState order
         packets.sort_by_key(|p| {
             let a: SocketAddr = p.path.local_address.0.into();
             a
         });
         let now = now_us();
-        crate::clock::set_virtual_us(now);
+        crate::clock::set_virtual_ns(now_ns());
         let mut sh = self.shared.lock().unwrap();
         let base = sh.base_delay.as_micros() as u64;
         let mut count = 0;
@@ -199,72 +131,19 @@ impl Network for ChoiceNet {
             let src: SocketAddr = packet.path.local_address.0.into();
             let dst: SocketAddr = packet.path.remote_address.0.into();
             let from = if Some(src) == sh.server_addr { SERVER } else { CLIENT };
-            let dir = if from == CLIENT { 0usize } else { 1usize };
             let idx = sh.next_idx;
             sh.next_idx += 1;
-
-            // harness injections scheduled before this datagram
-            let inj: Vec<Inject> = sh.injects.iter().filter(|i| i.before_idx == idx).cloned().collect();
-            for i in inj {
-                let (to_addr, peer_addr) = if i.to == SERVER { (sh.server_addr, sh.client_addr) } else { (sh.client_addr, sh.server_addr) };
-                if let (Some(to_addr), Some(peer_addr)) = (to_addr, peer_addr) {
-                    let claimed: SocketAddr = if i.from_peer { peer_addr } else { SocketAddr::new("9.9.9.9".parse().unwrap(), i.src_port) };
-                    let mut p = packet.clone();
-                    p.payload = i.payload.clone();
-                    // `deliver` switches: build the packet as if sent by `claimed` to `to_addr`
-                    p.path.local_address = s2n_quic_core::inet::SocketAddress::from(claimed).into();
-                    p.path.remote_address = s2n_quic_core::inet::SocketAddress::from(to_addr).into();
-                    let ridx = {
-                        let mut r = self.rec.0.lock().unwrap();
-                        r.dgrams.push(Dgram { idx: u32::MAX, t: now, from: 2, src: claimed, dst: to_addr, payload: i.payload.clone(), action: "inject".into(), delivered_at: vec![], delivered_len: i.payload.len(), delivered_intact: true });
-                        r.dgrams.len() - 1
-                    };
-                    deliver(buffers, p, now + base, now, &self.rec, ridx);
-                    count += 1;
-                }
-            }
-
             let mut action = sh.schedule.get(&idx).cloned().unwrap_or(Action::Deliver);
-            // MTU-drop: the network silently drops what exceeds its MTU
-            let over_mtu = packet.payload.len() > sh.mtu;
-            // blackholes in force
-            let bh = sh.blackhole[dir].map_or(false, |until| now < until);
             let mut label = action.code();
-            match action {
-                Action::BlackholeFrom(d) => {
-                    for x in 0..2 {
-                        if d == 2 || d as usize == x {
-                            sh.blackhole[x] = Some(u64::MAX);
-                        }
-                    }
-                    action = if d == 2 || d as usize == dir { Action::Drop } else { Action::Deliver };
-                }
-                Action::BlackholeFor(d, ms) => {
-                    for x in 0..2 {
-                        if d == 2 || d as usize == x {
-                            sh.blackhole[x] = Some(now + ms as u64 * 1000);
-                        }
-                    }
-                    action = if d == 2 || d as usize == dir { Action::Drop } else { Action::Deliver };
-                }
-                _ => {}
-            }
-            if bh {
-                action = Action::Drop;
-                label = "bh".into();
-            }
-            if over_mtu {
+            // the network silently drops what exceeds its MTU
+            if packet.payload.len() > sh.mtu {
                 action = Action::Drop;
                 label = "mtu".into();
             }
-            let prev_payload = std::mem::replace(&mut sh.last_payload[dir], Some(packet.payload.clone()));
             let mut d = Dgram { idx, t: now, from, src, dst, payload: packet.payload.clone(), action: label, delivered_at: vec![], delivered_len: packet.payload.len(), delivered_intact: true };
-            let ridx = {
-                let r = self.rec.0.lock().unwrap();
-                r.dgrams.len()
-            };
+            let ridx = self.rec.0.lock().unwrap().dgrams.len();
             match action {
-                Action::Deliver | Action::BlackholeFrom(_) | Action::BlackholeFor(..) => {
+                Action::Deliver => {
                     self.rec.0.lock().unwrap().dgrams.push(d);
                     deliver(buffers, packet, now + base, now, &self.rec, ridx);
                 }
@@ -280,110 +159,6 @@ impl Network for ChoiceNet {
                 Action::Delay(m) => {
                     self.rec.0.lock().unwrap().dgrams.push(d);
                     deliver(buffers, packet, now + base * m as u64, now, &self.rec, ridx);
-                }
-                Action::Corrupt(which, mask) => {
-                    let mut p = packet;
-                    if !p.payload.is_empty() {
-                        let pos = match which {
-                            0 => 0,
-                            1 => p.payload.len() / 2,
-                            _ => p.payload.len() - 1,
-                        };
-                        p.payload[pos] ^= mask;
-                    }
-                    d.delivered_intact = false;
-                    self.rec.0.lock().unwrap().dgrams.push(d);
-                    deliver(buffers, p, now + base, now, &self.rec, ridx);
-                }
-                Action::Truncate => {
-                    let mut p = packet;
-                    let n = p.payload.len() / 2;
-                    p.payload.truncate(n);
-                    d.delivered_intact = false;
-                    d.delivered_len = n;
-                    self.rec.0.lock().unwrap().dgrams.push(d);
-                    deliver(buffers, p, now + base, now, &self.rec, ridx);
-                }
-                Action::Forge(kind) => {
-                    self.rec.0.lock().unwrap().dgrams.push(d);
-                    let genuine = packet.payload.clone();
-                    let mut forgeries: Vec<Vec<u8>> = Vec::new();
-                    if sh.forge_enabled {
-                        match kind {
-                            0 => {
-                                for pos in 0..genuine.len() {
-                                    for mask in [0x01u8, 0x80, 0xff] {
-                                        let mut f = genuine.clone();
-                                        f[pos] ^= mask;
-                                        forgeries.push(f);
-                                    }
-                                }
-                            }
-                            1 => {
-                                for len in 0..genuine.len() {
-                                    forgeries.push(genuine[..len].to_vec());
-                                }
-                            }
-                            2 => {
-                                for k in 0..64u64 {
-                                    let mut f = vec![0u8; genuine.len()];
-                                    crate::mccore::prf_fill(0xF0 ^ k, idx as u64, &mut f);
-                                    // keep the header form of the genuine packet so that it is routed to the connection
-                                    f[0] = (f[0] & 0x3f) | (genuine[0] & 0xc0);
-                                    let keep = genuine.len().min(if genuine[0] & 0x80 != 0 { 6 } else { 17 });
-                                    if k % 2 == 0 {
-                                        f[..keep].copy_from_slice(&genuine[..keep]);
-                                    }
-                                    forgeries.push(f);
-                                }
-                            }
-                            _ => {
-                                if let Some(prev) = prev_payload.clone() {
-                                    let n = genuine.len().min(prev.len());
-                                    let mut cut = 1;
-                                    while cut < n {
-                                        let mut f = prev[..cut].to_vec();
-                                        f.extend_from_slice(&genuine[cut..]);
-                                        if f != genuine && f != prev {
-                                            forgeries.push(f);
-                                        }
-                                        let mut g = genuine[..cut].to_vec();
-                                        g.extend_from_slice(&prev[cut..]);
-                                        if g != genuine && g != prev {
-                                            forgeries.push(g);
-                                        }
-                                        cut += 16;
-                                    }
-                                }
-                            }
-                        }
-                    }
-                    // spread over the 20 ms so that the receive queue (1024 packets) never overflows
-                    let total = forgeries.len().max(1) as u64;
-                    for (k, f) in forgeries.into_iter().enumerate() {
-                        let mut p = packet.clone();
-                        p.payload = f;
-                        let at = now + base + (k as u64 * 19_000) / total;
-                        let ridx = {
-                            let mut r = self.rec.0.lock().unwrap();
-                            r.dgrams.push(Dgram { idx: u32::MAX, t: now, from: 2, src, dst, payload: Vec::new(), action: "forged".into(), delivered_at: vec![], delivered_len: p.payload.len(), delivered_intact: false });
-                            r.dgrams.len() - 1
-                        };
-                        sh.forged += 1;
-                        deliver(buffers, p, at, now, &self.rec, ridx);
-                    }
-                    deliver(buffers, packet, now + base + 20_000, now, &self.rec, ridx);
-                }
-                Action::RebindClient => {
-                    self.rec.0.lock().unwrap().dgrams.push(d);
-                    deliver(buffers, packet, now + base, now, &self.rec, ridx);
-                    sh.rebinds += 1;
-                    if let (Some(sock), Some(addr)) = (sh.client_socket.clone(), sh.client_addr) {
-                        let mut new = addr;
-                        new.set_port(addr.port().wrapping_add(100 * sh.rebinds as u16));
-                        sock.rebind(new);
-                        sh.client_addr = Some(new);
-                    }
                 }
             }
             count += 1;
